@@ -12,11 +12,11 @@
    against thresh_corr^2 resp. ^4). *)
 From AC.Model Require Import Base.
 
-(* one requested measure *)
+(* one requested measure.  (A second chi2-based measure is computed from the chi2 statistic of the
+   first one — /repo 406fe09 — and therefore has the value of the stand-alone measure.) *)
 Record mspec := mkM {
   m_ranking : bool;   (* produces a column named *_measure (chi2_measure does not) *)
   m_falsy   : bool;   (* `if value:` precedes the assignment: a float 0.0 becomes NaN *)
-  m_crash   : bool;   (* second chi2-based measure: receives chi2_statistic, UnboundLocalError *)
   m_thresh  : Z;      (* thresh_<measure> on the scale of the column *)
   m_sthresh : Z }.    (* the same threshold on the scale of the specification strength *)
 
@@ -49,7 +49,7 @@ Fixpoint pipeline (active : bool) (ms : list mspec) (rs : list raw) : res (list 
   match ms, rs with
   | m :: ms', r :: rs' =>
       if active then
-        if r_err r || m_crash m then InternalErr
+        if r_err r then InternalErr
         else
           let c := if r_nan r || (m_falsy m && (r_val r =? 0) && r_zero_nan r) then CNaN
                    else CVal (r_val r) in
@@ -85,7 +85,7 @@ Definition key (r : row) (j : nat) : Z := match cell_at r j with CVal z => z | _
 Definition col_exists (rows : list row) (j : nat) : bool :=
   existsb (fun r => negb (is_missing (cell_at r j))) rows.
 
-Definition dflt_m : mspec := mkM false false false 0 0.
+Definition dflt_m : mspec := mkM false false 0 0.
 
 (* evaluated_measure_names: reversed order of the requested measures *)
 Definition rank_cols (ms : list mspec) (rows : list row) : list nat :=
